@@ -562,3 +562,8 @@ _add_family(globals(), _si, 'storeinit', _si.oracle, share=0.04)
 # several ports on one node, falsy updates among them
 from harness import falsymulti as _fm                   # noqa: E402
 _add_family(globals(), _fm, 'falsymulti', _fm.oracle, share=0.04)
+
+
+# an update that names its own updater, among the ordinary updates of another port on the same node
+from harness import onceset as _os                      # noqa: E402
+_add_family(globals(), _os, 'onceset', _os.oracle, share=0.03)
